@@ -44,6 +44,11 @@ func (m *Plugin) GenerateCode(data *codegen.Data) error {
 		return err
 	}
 	pkgName := code.NameForDir(filepath.Dir(abs))
+	// Plugins run before the executor is written: on a first generation the directory holds no Go file yet and
+	// its name says nothing about a configured `exec.package`. A stub beside the executor is in its package.
+	if exec := data.Config.Exec; exec.Package != "" && filepath.Dir(abs) == exec.Dir() {
+		pkgName = exec.Package
+	}
 
 	return templates.Render(templates.Options{
 		PackageName: pkgName,
